@@ -201,6 +201,10 @@ REWRITES = {
     "R2b": (re.compile(r"\bu32::from_be_bytes\("), "shim_u32_from_be_bytes("),
     "R2c": (re.compile(r"\b([A-Za-z_][A-Za-z0-9_\.]*)\.to_be_bytes\(\)"), r"shim_to_be_bytes_u16(\1)"),
     "R2d": (re.compile(r"\bstd::cmp::max\("), "shim_max_u32("),
+    "R2e": (re.compile(r"\b([A-Za-z_][A-Za-z0-9_\.]*)\.to_be_bytes\(\)"), r"shim_to_be_bytes_u32(\1)"),
+    # R13: BufMut provided methods -> shims whose body is the same call
+    "R13a": (re.compile(r"\b([A-Za-z_][A-Za-z0-9_\.]*)\.put_u8\("), r"shim_put_u8(&mut \1, "),
+    "R13b": (re.compile(r"\b([A-Za-z_][A-Za-z0-9_\.]*)\.put_slice\("), r"shim_put_slice(&mut \1, "),
     # R10: array pattern
     "R10": (re.compile(r"let \[([a-z_0-9]+), ([a-z_0-9]+)\] = ([^;]+);"),
             r"let t__ = \3; let \1 = t__[0]; let \2 = t__[1];"),
